@@ -85,6 +85,12 @@ def _digest_any(o):
         v = call(o, _ESTDATA)
         return ('estimator', name, repr(o.sigma_clip),
                 'raised' if isinstance(v, Raised) else repr(float(v)))
+    if name == 'SourceCatalog':
+        # a catalog the caller keeps (e.g. a detection catalog): every
+        # array it has cached so far, by attribute name
+        return ('catalog', {k: buffer_digest(np.asarray(getattr(
+            v, 'value', v))) for k, v in o.__dict__.items()
+            if isinstance(v, np.ndarray) and v.dtype.kind in 'biuf'})
     if name == 'EPSFStars':
         return ('epsfstars', o.n_all_stars, o.n_good_stars,
                 [(buffer_digest(np.asarray(s.data)),
@@ -355,6 +361,17 @@ class InputsMachine(Machine):
     def _check_pool(self, st, where):
         for k, v in st.P.items():
             d = _digest_any(v)
+            if isinstance(d, tuple) and d and d[0] == 'catalog':
+                # values are cached lazily: new entries are fine, an entry
+                # that was there must not change
+                old = st.d0[k][1]
+                bad = [a for a in old if a in d[1] and d[1][a] != old[a]]
+                st.d0[k] = ('catalog', {**d[1], **old})
+                if not bad:
+                    continue
+                raise Violation('buffer_modified', self._subject(where, k),
+                                f'cached values {bad} of the caller\'s '
+                                f'catalog {k!r} changed during {where}')
             if d != st.d0[k]:
                 raise Violation('buffer_modified', self._subject(where, k),
                                 f'caller buffer {k!r} '
@@ -806,11 +823,20 @@ class InputsMachine(Machine):
         yy, xx = np.mgrid[0:9, 0:9]
         m = P['imodel'] if op['variant'] % 2 else P['model']
 
+        if 'xx_f' not in P:
+            # float64 coordinate grids the caller keeps and uses again
+            fy, fx = np.mgrid[0:9:0.5, 0:9:0.5]
+            P['xx_f'], P['yy_f'] = fx, fy
+            st.d0['xx_f'] = _digest_any(fx)
+            st.d0['yy_f'] = _digest_any(fy)
+
         def fn():
             c = m.copy()
             c.x_0 = 4.2
             c.y_0 = 3.9
             c.flux = 7.0
+            if op.get('opt', 0) % 2:
+                return c(P['xx_f'], P['yy_f']) + m(P['xx_f'], P['yy_f'])
             return c(xx, yy) + m(xx - 4.0, yy - 4.0)
         return self._run(st, op, fn)
 
@@ -951,8 +977,23 @@ class InputsMachine(Machine):
             P['sky'] = sky
             st.d0['sky'] = _digest_any(sky)
         aper = SkyCircularAperture(P['sky'], r=2.0 * u.arcsec)
+        if 'theta_rad' not in P:
+            from photutils.aperture import (SkyEllipticalAperture,
+                                            SkyRectangularAnnulus)
+            P['theta_rad'] = 0.3 * u.rad        # the caller's own Quantity
+            P['sky_ell_rad'] = SkyEllipticalAperture(
+                P['sky'], 3 * u.arcsec, 2 * u.arcsec, theta=P['theta_rad'])
+            P['sky_rann_rad'] = SkyRectangularAnnulus(
+                P['sky'], 2 * u.arcsec, 4 * u.arcsec, 3 * u.arcsec,
+                theta=1.1 * u.rad)
+            for k in ('theta_rad', 'sky_ell_rad', 'sky_rann_rad'):
+                st.d0[k] = _digest_any(P[k])
+        if op.get('opt', 0) >= 5:
+            aper = P['sky_ell_rad'] if op['opt'] % 2 else P['sky_rann_rad']
 
         def fn():
+            if op.get('opt', 0) == 7:
+                return aper.to_pixel(w).area
             if op['variant'] % 2:
                 return aperture_photometry(data, aper, wcs=w, error=error,
                                            mask=mask)
@@ -1022,11 +1063,30 @@ class InputsMachine(Machine):
         if op['data'] == 'q':
             data = P['nd']
 
+        if 'detcat' not in P:
+            # the detection catalog is the caller's object: it goes on
+            # using it after handing it to other catalogs
+            P['detcat'] = SourceCatalog(P['clean'], P['segm'],
+                                        convolved_data=P['clean'],
+                                        kron_params=(2.5, 1.4, 1.0))
+            P['detcat'].kron_radius
+            st.d0['detcat'] = _digest_any(P['detcat'])
+        v = op['variant']
+
         def fn():
-            det = SourceCatalog(P['clean'], P['segm'],
-                                convolved_data=P['clean'])
+            if v % 2:
+                det = SourceCatalog(P['clean'], P['segm'],
+                                    convolved_data=P['clean'])
+                return SourceCatalog(data, P['segm'], error=error,
+                                     mask=mask, detection_cat=det)
             cat = SourceCatalog(data, P['segm'], error=error, mask=mask,
-                                detection_cat=det)
+                                detection_cat=P['detcat'],
+                                kron_params=(2.5, 1.4, 1.0))
+            if op.get('opt', 0) % 2:
+                # other Kron parameters (small minimum Kron radius, large
+                # minimum circular radius)
+                cat.kron_photometry((2.0, 0.1, 50.0))
+                cat.make_kron_apertures((2.0, 0.1, 50.0))
             return cat
         out = self._run(st, op, fn)
         self._keep(st, 'catalog', out, op)
@@ -1062,7 +1122,22 @@ class InputsMachine(Machine):
             P['epsf_stars'] = EPSFStars(lst) if len(lst) >= 2 else None
             st.d0['epsf_stars'] = _digest_any(P['epsf_stars'])
 
+        if 'nddata_star' not in P:
+            # an image with a bad pixel next to the peak of a star (inside
+            # the fitter's box); the star cutouts are views of it
+            img = P['clean'].copy()
+            xi, yi = int(round(P['xpos'][0])), int(round(P['ypos'][0]))
+            img[min(img.shape[0] - 1, yi + 1), min(img.shape[1] - 1, xi)] = \
+                np.nan
+            P['nddata_star'] = NDData(img)
+            st.d0['nddata_star'] = _digest_any(P['nddata_star'])
+
         def fn():
+            if op.get('opt', 0) == 4:
+                stars = extract_stars(P['nddata_star'], tbl, size=9)
+                epsf, fitted = EPSFBuilder(oversampling=1, maxiters=2,
+                                           progress_bar=False)(stars)
+                return epsf.data
             if op.get('opt', 0) >= 5 and P['epsf_stars'] is not None:
                 epsf, fitted = EPSFBuilder(
                     oversampling=1, maxiters=5, progress_bar=False,
